@@ -304,3 +304,190 @@ def replay_comb(b, cfg, model, spec=None, req=None):
     else:
         info.update(reproduced=False, note='real simulator agrees with the specification on this input (spurious model)')
     return info
+
+
+# ----------------------------------------------------------------------------- sequential blocks
+def _relpath(leaf, root):
+    parts = []
+    o = leaf
+    while o is not None and o is not root:
+        parts.append(o.name); o = o.parent
+    return '/'.join(reversed(parts))
+
+
+def _seq_setup(b, cfg):
+    from . import netlist as N
+    sys_ = L.new_system()
+    obj, ins, outs = N.quiet(b.make, sys_, dict(cfg))
+    nl = N.Netlist(sys_)
+    return sys_, obj, ins, outs, nl
+
+
+def _seq_state_from_spec(nl, obj, mapping, prefix_check=True):
+    """netlist state := image of the spec state under the refinement mapping"""
+    st = {'fields': {}, 'arrays': {}, 'q': {}}
+    seen = set()
+    for drv, leaf in nl.clocked:
+        rp = _relpath(leaf, obj)
+        if rp not in mapping:
+            raise KeyError('refinement mapping has no entry for clocked leaf %r (have %s)' % (rp, sorted(mapping)))
+        seen.add(rp)
+        m = mapping[rp]
+        outs = [p for p in leaf.outPorts if p.wire is not None]
+        if isinstance(m, ir.T) or isinstance(m, int):
+            m = ir.lift(m)
+            st['fields'][(id(leaf), 'value')] = m
+            assert len(outs) == 1
+            st['q'][id(outs[0].wire)] = ir.M(m, outs[0].wire.getWidth())
+        else:
+            for f, t in m.get('fields', {}).items(): st['fields'][(id(leaf), f)] = ir.lift(t)
+            for a, t in m.get('arrays', {}).items(): st['arrays'][(id(leaf), a)] = t
+            for p in outs:
+                st['q'][id(p.wire)] = ir.M(ir.lift(m['q'][p.name]), p.wire.getWidth())
+    return st
+
+
+def seq_item(name, cfg, tier='quick', timeout_s=10, seed=0):
+    """sequential block: refinement of the reference state machine of the statement, one-step (inductive)"""
+    from . import netlist as N
+    _load_blocks()
+    b = N.BLOCKS[name]; sp = b.seq
+    tag = _cfg_tag(cfg); base = 'block::%s@%s' % (name, tag)
+    t0 = time.time()
+    try:
+        sys_, obj, ins, outs, nl = _seq_setup(b, cfg)
+    except (N.Undecided,) as e:
+        return [{'oid': base + '#undecided', 'status': 'unknown', 'reason': str(e), 'cfg': cfg, 'function': name}]
+    except (AttributeError, NameError, ValueError, IndexError, TypeError) as e:
+        return [{'oid': base + '#constructs_and_simulates', 'status': 'refuted', 'cfg': cfg, 'model': {}, 'mode': 'native',
+                 'replay': {'reproduced': True, 'got': 'raises %r' % (e,), 'expected': 'a simulator for an accepted configuration'},
+                 'function': name, 'seconds': time.time() - t0}]
+    except Exception as e:
+        return [{'oid': base + '#refused', 'status': 'refused', 'bounded': True, 'evaluations': 0, 'reason': repr(e)[:200], 'cfg': cfg}]
+    out = []
+    try:
+        byid, I = N.input_vars(ins)
+        S = {k: ir.var('st:' + k, lo, hi) for k, (lo, hi) in sp['state'](cfg).items()}
+        req = [ir.truth(x) for x in (sp['requires'](cfg, S, I) if sp.get('requires') else [])]
+        inv = [ir.truth(x) for x in (sp['invariant'](cfg, S) if sp.get('invariant') else [])]
+        N0 = _seq_state_from_spec(nl, obj, sp['regs'](cfg, S))
+        pre, N1 = nl.step(N0, byid)
+        S1 = sp['step'](cfg, S, I)
+        S1 = {k: ir.lift(v) for k, v in S1.items()}
+        want = _seq_state_from_spec(nl, obj, sp['regs'](cfg, S1))
+        obls = []
+        # init
+        Si = {k: ir.lift(v) for k, v in sp['init'](cfg).items()}
+        wi = _seq_state_from_spec(nl, obj, sp['regs'](cfg, Si))
+        ni = nl.init_state()
+        for kind in ('fields', 'q'):
+            for key, t in ni[kind].items():
+                obls.append(('init.%s[%s]' % (kind, _keyname(nl, obj, kind, key)), [], ir.eq(t, wi[kind][key])))
+        for key, t in ni['arrays'].items():
+            pass   # initial memory content is whatever the constructor built; the mapping takes it as spec state
+        if inv:
+            obls.append(('init.invariant', [], ir.band_(*[ir.substitute(x, {('st:' + k): v for k, v in Si.items()}) for x in inv])))
+            obls.append(('step.invariant', req + inv, ir.band_(*[ir.substitute(x, {('st:' + k): v for k, v in S1.items()}) for x in inv])))
+        hy = req + inv
+        for kind in ('fields', 'q'):
+            for key, t in N1[kind].items():
+                obls.append(('step.%s[%s]' % (kind, _keyname(nl, obj, kind, key)), hy, ir.eq(t, want[kind][key])))
+        for key, t in N1['arrays'].items():
+            obls.append(('step.array[%s]' % _keyname(nl, obj, 'arrays', key), hy, ir.aeq(t, want['arrays'][key])))
+        ovals = nl.outputs(N0, byid)
+        ospec = sp['out'](cfg, S, I)
+        for k, e in ospec.items():
+            w = outs[k]
+            obls.append(('out[%s]' % k, inv, ir.eq(ovals[id(w)], ir.M(ir.as_int(e), w.getWidth()))))
+        for o in outs:
+            if o not in ospec: obls.append(('unspecified_output[%s]' % o, [], ir.FALSE))
+        for i, (path, cond) in enumerate(nl.side):
+            obls.append(('leaf_requires[%d:%s]' % (i, path.split('/')[-1]), hy, cond))
+        for path, r in nl.struct_fail:
+            obls.append(('leaf_requires_structural[%s]' % path.split('/')[-1], [], ir.FALSE))
+    except (N.Undecided, L.Unsupported, L.ShapeError, ir.EvalError) as e:
+        return [{'oid': base + '#undecided', 'status': 'unknown', 'reason': '%s: %s' % (type(e).__name__, e), 'cfg': cfg, 'function': name}]
+    for (cl, hy, goal) in obls:
+        v = smt.prove(hy, goal, mode='bv', timeout_s=b.timeout or timeout_s)
+        rep = None
+        if v.status == 'refuted':
+            r = L.Result(base + '#' + cl, v, None, hy, goal, cfg, None, 'bv')
+            v, rep = decide_with_replay(r, lambda m: replay_seq(b, cfg, m, init=cl.startswith('init')), b.timeout or timeout_s, rounds=4)
+        out.append({'oid': base + '#' + cl, 'status': v.status, 'mode': 'composition/width-grid', 'backend': v.backend,
+                    'seconds': round(v.seconds, 4), 'reason': v.reason, 'model': v.model if v.status == 'refuted' else None,
+                    'cfg': cfg, 'replay': rep, 'function': name, 'leaves': len(nl.prop) + len(nl.clocked)})
+    return out
+
+
+def _keyname(nl, obj, kind, key):
+    if kind == 'q':
+        for drv, leaf in nl.clocked:
+            for p in leaf.outPorts:
+                if p.wire is not None and id(p.wire) == key: return _relpath(leaf, obj) + '.' + p.name
+        return str(key)
+    lid, f = key
+    for drv, leaf in nl.clocked:
+        if id(leaf) == lid: return _relpath(leaf, obj) + '.' + f
+    return str(key)
+
+
+def replay_seq(b, cfg, model, init=False, cycles=1):
+    """real simulator: load the state image of the model's spec state, apply the model's inputs, clk(1);
+    compare registers and outputs with the reference machine evaluated natively"""
+    from . import netlist as N
+    sp = b.seq
+    info = {'cfg': cfg, 'inputs': {k[3:]: v for k, v in model.items() if k.startswith('in:')},
+            'spec_state': {k[3:]: v for k, v in model.items() if k.startswith('st:')}}
+    try:
+        sys_, obj, ins, outs, nl = _seq_setup(b, cfg)
+        sim = nl.sim
+    except Exception as e:
+        info.update(reproduced=False, note='cannot rebuild: %r' % (e,)); return info
+    rng = sp['state'](cfg)
+    Sc = {k: ir.const(int(model.get('st:' + k, lo))) for k, (lo, hi) in rng.items()}
+    Ic = {n: ir.const(int(model.get('in:' + n, 0)) & ((1 << w.getWidth()) - 1)) for n, w in ins.items()}
+    try:
+        if init:
+            Sc = {k: ir.lift(v) for k, v in sp['init'](cfg).items()}
+        else:
+            img = _seq_state_from_spec(nl, obj, sp['regs'](cfg, Sc))
+            for drv, leaf in nl.clocked:
+                for (lid, f), t in img['fields'].items():
+                    if lid == id(leaf): setattr(leaf, f, ir.evaluate(t, {}))
+                for p in leaf.outPorts:
+                    if p.wire is not None: p.wire.value = ir.evaluate(img['q'][id(p.wire)], {})
+        for n, w in ins.items(): w.put(Ic[n].val)
+        problems = {}
+        if not init:
+            if sp.get('requires') and not all(ir.evaluate(ir.truth(x), {}) for x in sp['requires'](cfg, Sc, Ic)):
+                info.update(reproduced=False, note='model violates the block requires'); return info
+            if sp.get('invariant') and not all(ir.evaluate(ir.truth(x), {}) for x in sp['invariant'](cfg, Sc)):
+                info.update(reproduced=False, note='model state violates the reference invariant'); return info
+            N.quiet(sim.propagateAll)
+            # outputs as a function of (state, inputs)
+            for k, e in sp['out'](cfg, Sc, Ic).items():
+                exp = ir.evaluate(ir.M(ir.as_int(e), outs[k].getWidth()), {})
+                if outs[k].get() != exp: problems['out ' + k] = (exp, outs[k].get())
+            N.quiet(sim.clk, 1)
+            S1 = {k: ir.lift(v) for k, v in sp['step'](cfg, Sc, Ic).items()}
+        else:
+            S1 = Sc
+        img1 = _seq_state_from_spec(nl, obj, sp['regs'](cfg, S1))
+        for drv, leaf in nl.clocked:
+            for (lid, f), t in img1['fields'].items():
+                if lid == id(leaf):
+                    exp = ir.evaluate(t, {})
+                    if getattr(leaf, f) != exp: problems['%s.%s' % (_relpath(leaf, obj), f)] = (exp, getattr(leaf, f))
+            for p in leaf.outPorts:
+                if p.wire is not None:
+                    exp = ir.evaluate(img1['q'][id(p.wire)], {})
+                    if p.wire.get() != exp: problems['%s.%s' % (_relpath(leaf, obj), p.name)] = (exp, p.wire.get())
+    except Exception as e:
+        import py4hw
+        py4hw.Wire.prepared = []
+        info.update(reproduced=True, got='raises %r' % (e,), expected='one clock cycle'); return info
+    if problems:
+        info.update(reproduced=True, expected={k: v[0] for k, v in problems.items()}, got={k: v[1] for k, v in problems.items()})
+    else:
+        info.update(reproduced=False, note='real simulator follows the reference machine on this state/input (spurious model)')
+    return info
